@@ -288,4 +288,52 @@ def rule_e(ctx: Ctx) -> None:
     ctx.explain('C08.e: the ID table and the identity counters are document-wide: a copied context shares them.')
 
 
-RULES = [rule_a, rule_b, rule_c, rule_d, rule_e]
+def rule_f(ctx: Ctx) -> None:
+    """QName field values are expanded with the in-scope namespaces of the selected element: typestate {own, descendant} of the
+    converter's xmlns scope over XsdElement.raw_decode — 'descendant' after any decode that may walk children, 'own' after
+    set_xmlns_context(obj, level); collect_key_fields (and the converter hand-off) must run in state 'own' on every path."""
+    rule = 'C08.f'
+    f = ctx.idx.func(f'{ELEM}.raw_decode')
+    g = cfg_of(ctx, f)
+
+    def descends(n) -> bool:
+        for e in n.exprs:
+            for c in calls(e):
+                if isinstance(c.func, ast.Attribute) and c.func.attr == 'raw_decode' and text(c.func.value) not in ('attribute_group', 'xsd_attribute'):
+                    return True
+        return False
+
+    def owns(n) -> bool:
+        for e in n.exprs:
+            for c in calls(e):
+                if text(c.func) == 'context.converter.set_xmlns_context' and [text(a) for a in c.args] == ['obj', 'context.level']:
+                    return True
+        return False
+    stale = {n: False for n in g.nodes}
+    stale[g.entry] = True      # the scope of the previously processed sibling may still be active
+    work = list(g.nodes)
+    while work:
+        n = work.pop()
+        out = stale[n]
+        if owns(n):
+            out = False
+        if descends(n):
+            out = True
+        for m, lab in g.succ[n]:
+            if lab in 'nTFxi' and out and not stale[m]:
+                stale[m] = True
+                work.append(m)
+    users = call_nodes(g, lambda c: text(c.func) in ('self.collect_key_fields', 'context.converter.element_decode', 'self.maps.get_instance_type'))
+    ctx.floor(rule, 'namespace-sensitive steps in XsdElement.raw_decode', len(users), 3)
+    for n, c in users:
+        ok = not stale[n]
+        ctx.ob(rule, f'XsdElement.raw_decode: `{text(c.func)}(…)` runs with the element\'s own namespace scope (descendant scopes purged)', f.loc(c), ok,
+               '' if ok else 'on some path the xmlns scope of a descendant (or of the previous sibling) is still active: a QName field value or '
+               'xsi:type prefix is expanded with the wrong binding', key=f'{ELEM}.raw_decode|xmlns-scope|{text(c.func)}')
+    ckf = ctx.idx.func(f'{ELEM}.collect_key_fields')
+    ok = 'context.namespaces' in text(ckf.node)
+    ctx.ob(rule, 'collect_key_fields expands field values with the context namespaces', ckf.loc(), ok, '', key=f'{ELEM}.collect_key_fields|namespaces', nontrivial=False)
+    ctx.explain('C08.f: typestate of the converter xmlns scope over the CFG of XsdElement.raw_decode.')
+
+
+RULES = [rule_a, rule_b, rule_c, rule_d, rule_e, rule_f]
